@@ -39,6 +39,9 @@ def check(prog, run):
     if not nb_:
         run.ob("R-bind", "pyoma2.algorithms", "callers of SC_apply", None, "no run() method calling SC_apply found")
     run.rule("R-labels", "readers of Lab reachable from the algorithm classes compare it only with values SC_apply writes", 4)
+    run.rule("R-final", "every run() labels the pole tables it stores: the tables handed to SC_apply carry all the criteria of the stored ones", 12)
+    from . import C09
+    C09.labels_final(prog, run, "R-final")
     fi = prog.func(FN)
     f = rel(prog.mods[fi.mod].path)
     pos, _, _, _ = astq.params_of(fi.node)
